@@ -103,6 +103,11 @@ sim::Json make_token(sim::Rng& rng, bool cmdline, bool allow_errors) {
         vtext = lit[rng.below(5)];
         v = strtod(vtext.c_str(), nullptr);
       }
+      if (rng.chance(0.12)) {    // other spellings of a real literal: explicit plus sign, no digit before / after the point, upper-case exponent
+        static const struct { const char* text; double val; } forms[] = {{"+1.5", 1.5}, {".5", 0.5}, {"5.", 5.0}, {"1E+5", 1e5}, {"+2.5e-3", 0.0025}, {"-.25", -0.25}, {"+30", 30.0}, {"+.5", 0.5}, {"1e+0", 1.0}, {"-0.0", -0.0}};
+        auto& f = forms[rng.below(sizeof forms / sizeof *forms)];
+        vtext = f.text; v = f.val;
+      }
       t.set("val", v); t.set("sem", "set");
       break;
     }
